@@ -3,6 +3,7 @@ import Jrpc.Oracle.C14
 import Jrpc.Oracle.C17
 import Jrpc.Oracle.C12
 import Jrpc.Oracle.C02
+import Jrpc.Oracle.C13
 /-! The model oracle: one line in, one line out. First token selects the sub-command. -/
 open Jrpc.Oracle
 
@@ -15,6 +16,7 @@ def dispatch (line : String) : String :=
   | "c11s" :: r => C12.handleSend r
   | "c02" :: r => C02.handle r
   | "c13p" :: r => C02.handleParse r
+  | "c13e" :: r => C13.handle r
   | _ => "bad-op"
 
 partial def loop (h : IO.FS.Stream) (out : IO.FS.Stream) : IO Unit := do
